@@ -247,6 +247,9 @@ def fresh_seq(st, n, elem_shape, hint, measure=None):
                 return V.SCases([(t == k, gk(*idx)) for k, gk in enumerate(getters)])
 
             return g
+        if hasattr(shape, "seq_getter"):
+            # a shape that brings its own element model (pyvc.fmap.MapOf: dicts with symbolic keys as elements)
+            return shape.seq_getter(st, base, path, nidx)
         if isinstance(shape, S.Obj):
             parts = {k: mk(s_, f"{path}.{k}", nidx) for k, s_ in shape.fields.items()}
 
